@@ -15,14 +15,19 @@ def main():
         rc,out=sh(f"git -C /repo worktree add --detach {WT} HEAD"); print(out)
     results=[]
     for d in sys.argv[1:]:
-        pid=os.path.basename(d.rstrip('/')).replace('seed-','')
+        base=os.path.basename(d.rstrip('/')); rnd='r2-' if base.startswith('seed2-') else ''; pid=base.replace('seed2-','').replace('seed-','')
         for n in (1,2,3):
             diff=f"{d}/_out/change{n}.diff"; demo=f"{d}/_out/demo{n}.rs"; md=f"{d}/_out/change{n}.md"
             if not (os.path.exists(diff) and os.path.exists(demo)):
                 results.append((pid,n,"missing files")); continue
             reset()
             mdtext=open(md).read() if os.path.exists(md) else ""
-            flags="--no-default-features" if "--no-default-features" in mdtext and "--test demo" in mdtext and re.search(r"--no-default-features\s+--test", mdtext) else ""
+            # the author's note says which feature flags the demonstration needs
+            flags=""
+            m=re.search(r"cargo test --offline((?: --[a-z-]+(?: [a-z]+)?)*?) --test demo%d" % n, mdtext)
+            if m: flags=m.group(1).strip()
+            elif re.search(r"--no-default-features\s+--features alloc\s+--test", mdtext): flags="--no-default-features --features alloc"
+            elif re.search(r"--no-default-features\s+--test", mdtext): flags="--no-default-features"
             os.makedirs(f"{WT}/tests", exist_ok=True); shutil.copy(demo, f"{WT}/tests/demo{n}.rs")
             rc0,out0=sh(f"cargo test --offline {flags} --test demo{n} 2>&1 | tail -5", WT)
             clean_pass = "test result: ok" in out0
@@ -35,12 +40,12 @@ def main():
             os.rename(f"{WT}/tests_off", f"{WT}/tests")
             suite = "59 passed; 0 failed" in t
             rc1,out1=sh(f"cargo test --offline {flags} --test demo{n} 2>&1 | tail -8", WT)
-            changed_fail = "test result: FAILED" in out1 or "panicked" in out1
+            changed_fail = "test result: FAILED" in out1 or "panicked" in out1 or "overflowed its stack" in out1 or "SIGABRT" in out1 or "SIGSEGV" in out1 or "signal:" in out1
             ok = clean_pass and builds and suite and changed_fail
             results.append((pid,n,"CONFIRMED" if ok else f"REJECTED clean_pass={clean_pass} builds={builds} suite={suite} demo_fails_with_change={changed_fail}", flags))
             print(results[-1], flush=True)
             if ok:
-                dest=f"/verif/seeded/{pid}-{n}"; os.makedirs(dest, exist_ok=True)
+                dest=f"/verif/seeded/{pid}-{rnd}{n}"; os.makedirs(dest, exist_ok=True)
                 shutil.copy(diff, f"{dest}/patch.diff"); shutil.copy(demo, f"{dest}/demo.rs")
                 if os.path.exists(md): shutil.copy(md, f"{dest}/change.md")
                 needs = mdtext.strip()
